@@ -248,7 +248,8 @@ def mutate(g, defn):
         m["States"] = {}
     elif op == "choice_shape":
         if s.get("Type") == "Choice" and isinstance(s.get("Choices"), list) and s["Choices"] and isinstance(s["Choices"][0], dict) and "Next" in s["Choices"][0]:
-            how = g.pick(["no_choices", "empty_choices", "no_variable", "no_comparator", "two_comparators", "rule_wrong_type", "nested_next", "bad_comparator_type"])
+            how = g.pick(["no_choices", "empty_choices", "no_variable", "no_comparator", "two_comparators", "rule_wrong_type", "nested_next", "bad_comparator_type", "rule_next_wrong_type", "rule_next_wrong_type",
+                          "default_wrong_type"])
             r = s["Choices"][0]
             if how == "no_choices":
                 del s["Choices"]
@@ -266,6 +267,11 @@ def mutate(g, defn):
                 s["Choices"][0] = {"And": [{"Variable": "$.flag", "BooleanEquals": True, "Next": r["Next"]}], "Next": r["Next"]}
             elif how == "bad_comparator_type":
                 r["BooleanEquals"] = "yes"
+            elif how == "rule_next_wrong_type":
+                r["Next"] = g.pick([5, True, [1], {"a": 1}, 1.5])
+            elif how == "default_wrong_type":
+                s["Choices"] = [{"Variable": "$.flag", "BooleanEquals": "never", "Next": r["Next"]}]
+                s["Default"] = g.pick([5, True, [1], {"a": 1}])
             label = "choice_shape:" + how
         else:
             label = "choice_shape:n/a"
